@@ -1,4 +1,5 @@
 import Okane.Drv.Core
+import Okane.Drv.C09
 import Okane.Model.InlineDisplay
 import Okane.Model.CmdText
 /-!
@@ -14,9 +15,16 @@ order its hash map was in.
 models of the C13 theorems for every layout history).
 Case line: `<id> tree=<sexp> cmds=(<cmd> ...)` where `tree` is the implementation's parsed tree as `hx process` prints
 it and `<cmd>` is `(balance <date?> <date?>)` (`--start`, `--end`; `()` = absent, `((d Y M D))` = present),
-`(register)`, `(register <enc account>)` or `(accounts)`.
+`(register)`, `(register <enc account>)`, `(accounts)` or
+`(balancex <enc commodity> H|U <now> <date?> <date?> <db?>)` (`-X`, `--historical` or not, `--now`, `--start`, `--end`,
+`--price-db`: `()` = none, `(<enc text of the file>)`), or
+`(eval <expr> <date> <commodity?> <db?>)` (`primitive eval`: the expression as `hx c13 expr` parsed it, `-` when it does
+not parse; `--date`; `-X`; `--price-db`), answered like `balancex`.
 Output: `<id> <res> ...`, one `<res>` per command, in order:
 `ok:<enc stdout>` | `err:<entry index>:<enc message>` | `panic:<enc site>` | `fuel` | `badcmd`;
+for `balancex`: `<x>|<x>|...` — the result under the heap-faithful pop order (`cfgHeap`, Drv/C09) first, then the
+distinct results under other pop orders (the neighbour order is always the sorted one) — with `<x>` =
+`ok:<enc stdout>^<enc stdout if no precision were declared>` | `xerr:book:<index>:<enc title>` | `xerr:db` | `xerr:query:<enc text>` | `panic:..` | `fuel`;
 or `<id> undecodable` when the tree cannot be decoded.  Numerals are holes `U+0001 num/den U+0002`, a message that
 the binary continues with data the model does not carry ends with U+0003 (see `Model/CmdText.lean`).
 -/
@@ -56,6 +64,75 @@ def showResult : CmdText.Result → String
   | .panic s => "panic:" ++ Sexp.encode s
   | .fuelOut => "fuel"
 
+def showXResult : CmdText.XResult → String
+  | .ok out => "ok:" ++ Sexp.encode out
+  | .err (.book i msg) => "xerr:book:" ++ toString i ++ ":" ++ Sexp.encode msg
+  | .err .priceDb => "xerr:db"
+  | .err (.query msg) => "xerr:query:" ++ Sexp.encode msg
+  | .panic s => "panic:" ++ Sexp.encode s
+  | .fuelOut => "fuel"
+
+/-- `-X`: the heap-faithful configuration first, then whatever else the model allows (distinct results only). -/
+def runXAll (dbText : Option (List Char)) (o : CmdText.XOpts) (es : List Entry) : String :=
+  let repo : Price.Builder String :=
+    match process es with
+    | .ok st => match CmdText.loadRepo dbText st with
+      | .ok (_, repo) => repo
+      | _ => []
+    | _ => []
+  -- the neighbour order is the sorted one (what the Rust does since fix b2e85da, `ordSorted_string_ok`); the pop
+  -- order is `BinaryHeap`'s (simulated), then other pop orders among equal distances
+  let alts : List (Price.Cfg String) := C09.cfgHeap repo C09.fuel ::
+    [C09.pickMax, C09.pickMaxLast, C09.pickMin, C09.pickFifo, C09.pickLifo].map fun pk => ⟨C09.fuel, pk, C09.ordSorted⟩
+  let rs := alts.map fun cfg =>
+    match CmdText.runX cfg dbText o es with
+    | .ok out =>
+      -- the same report with no declared precision (nothing is rounded): lets the check tell a rounding-boundary
+      -- difference (rust_decimal's 28-digit products against exact rationals) from a wrong value
+      let raw := CmdText.xFinish cfg dbText o
+        ((process es).map' fun st => { st with ctx := { st.ctx with formatting := [] } })
+      "ok:" ++ Sexp.encode out ++ "^" ++ (match raw with | .ok r => Sexp.encode r | _ => "~")
+    | r => showXResult r
+  "|".intercalate rs.eraseDups
+
+def decXCmd : Sexp → Option (Option (List Char) × CmdText.XOpts)
+  | .list [.atom "balancex", t, mode, now, s, e, db] => do
+    let t ← t.str?; let now ← decDate now
+    let s ← decOpt decDate s; let e ← decOpt decDate e
+    let db ← decOpt Sexp.str? db
+    let hist := match mode with | .atom "H" => true | _ => false
+    pure (db.map String.toList, { exchange := t, historical := hist, now := now, range := ⟨s, e⟩ })
+  | _ => none
+
+structure EvalCase where
+  expr : Option VExpr
+  date : Date
+  exchange : Option String
+  db : Option (List Char)
+
+def decEvalCmd : Sexp → Option EvalCase
+  | .list [.atom "eval", e, date, ex, db] => do
+    let expr ← match e with
+      | .atom "-" => some none
+      | e => (decVExpr e).map some
+    let date ← decDate date
+    let ex ← decOpt Sexp.str? ex
+    let db ← decOpt Sexp.str? db
+    pure ⟨expr, date, ex, db.map String.toList⟩
+  | _ => none
+
+def runEvalAll (c : EvalCase) (es : List Entry) : String :=
+  let repo : Price.Builder String :=
+    match process es with
+    | .ok st => match CmdText.loadRepo c.db st with
+      | .ok (_, repo) => repo
+      | _ => []
+    | _ => []
+  let alts : List (Price.Cfg String) := C09.cfgHeap repo C09.fuel ::
+    [C09.pickMax, C09.pickMaxLast, C09.pickMin, C09.pickFifo, C09.pickLifo].map fun pk => ⟨C09.fuel, pk, C09.ordSorted⟩
+  let rs := alts.map fun cfg => showXResult (CmdText.runEval cfg c.db c.expr c.date c.exchange es)
+  "|".intercalate rs.eraseDups
+
 def stepCmd (line : String) : String :=
   let (id, fs) := splitFields line
   match field fs "tree", field fs "cmds" with
@@ -63,9 +140,11 @@ def stepCmd (line : String) : String :=
     match decEntries t, Sexp.parse cs with
     | some es, some (.list cmds) =>
       let rs := cmds.map fun c =>
-        match decCmd c with
-        | some c => showResult (CmdText.run c es)
-        | none => "badcmd"
+        match decCmd c, decXCmd c, decEvalCmd c with
+        | some c, _, _ => showResult (CmdText.run c es)
+        | none, some (db, o), _ => runXAll db o es
+        | none, none, some ec => runEvalAll ec es
+        | none, none, none => "badcmd"
       id ++ " " ++ " ".intercalate rs
     | _, _ => id ++ " undecodable"
   | _, _ => id ++ " bad-case"
